@@ -197,9 +197,12 @@ def run_child(binary, unit, cfg, bdir, tier, seed, shard, shards):
 RACE_HDR = "WARNING: DATA RACE"
 
 
-def parse_races(prefix):
+def parse_races(prefix, classes=()):
     """return list of (key, text) de-duplicated by the pair of first nebula frames of both stacks,
-    then by the full function-name stack pair (line numbers stripped)."""
+    then by the full function-name stack pair (line numbers stripped).
+    classes (checks/<ID>.json race_classes): [{key, stack_has}] - a report in which one of the two
+    racing stacks contains a frame matching the regex stack_has gets the stable key race:<key> instead;
+    this names one root cause whose first-frame pairs vary from run to run."""
     out = {}
     raw = 0
     for f in glob.glob(prefix + "*"):
@@ -219,6 +222,10 @@ def parse_races(prefix):
                         break
                 tops.append(fn or "?")
             key = "race:" + "|".join(sorted(t.replace("github.com/slackhq/nebula", "nebula") for t in tops))
+            for c in classes:
+                if any(re.search(c["stack_has"], st) for st in stacks[:2]):
+                    key = "race:" + c["key"]
+                    break
             if key not in out:
                 out[key] = blk.strip()
     return raw, out
@@ -388,7 +395,7 @@ def main():
     for r in results:
         u = unitmap[r["unit"]]
         if u.get("race"):
-            raw, dd = parse_races(r["racelog"])
+            raw, dd = parse_races(r["racelog"], cfg.get("race_classes", ()))
             race_raw += raw
             for k, blk in dd.items():
                 race_distinct.setdefault(k, (blk, r))
